@@ -446,4 +446,8 @@ def check(ctx, rep):
 
     # one result per executed codemod: a codemod selected twice is executed and reported twice
     rule_select_unique(ctx, rep)
+    from .c19 import rule_one_append
+
+    # `every changeset has a non-empty diff`: the regex pipelines record a change exactly for the lines they edited
+    rule_one_append(ctx, rep)
     rep.not_covered += ["JSON-schema validity of pydantic's serialisation", "line numbers lying inside the file", "non-ASCII content"]
